@@ -292,7 +292,7 @@ func TestC12(t *testing.T) {
 			)
 		}
 	}
-	reps := run.Pick(2, 40)
+	reps := run.Pick(4, 60)
 	k := 0
 	for rep := 0; rep < reps; rep++ {
 		for _, sc := range scs {
